@@ -169,20 +169,20 @@ CHECKS['C15'] = dict(
     design='C15')
 
 CHECKS['C07'] = dict(
-    text='Theorems: C07_roundtrip (for every legal value of the nine codec kinds Bool / IntOrNone / IntDefault / StrOrNone / Str / '
-         'List / Url / Errors / Ast - every integer, None, every URL-plain string and token list, every licence URL whatever its '
+    text='Theorems: C07_roundtrip (for every legal value of the ten codec kinds Bool / IntOrNone / IntDefault / StrOrNone / Str / '
+         'List / Float / Url / Errors / Ast - every integer, None, every URL-plain string and token list, every licence URL whatever its '
          'characters (C07_url_any_text: quote_plus out, one query decoding in), every error list with integer positions, every '
          'symbolic or date-time availabilityStartTime with any UTC offset (through the C19 date-time round trip): value -> URL '
          'text -> query decoding -> from_string is the identity), C07_drm_roundtrip (every DRM selection - any list of systems '
          'with non-empty location sets - comes back as its canonical form, which lists the same pairs: "all" is re-expanded in the '
          'repository order), C07_table_known (every row of coq/Gen/OptionsTable.v, regenerated from OptionsRepository on every '
-         'run with kinds decided by codec-function identity, has a recognised codec pair), C07_table_proved (all options but one '
-         '- the PlayReady version, a float - are of a proved kind), C07_forwarding (forwarded to media type m iff the usage mask '
+         'run with kinds decided by codec-function identity, has a recognised codec pair), C07_table_proved (every registered option '
+         'is of a proved kind; the PlayReady version, a float, for values with one fractional digit - its listed choices), C07_forwarding (forwarded to media type m iff the usage mask '
          'has m and the value differs from the default). Tied to /repo by differential runs of the real from_string/to_string/'
          'generate_cgi_parameters/dict_to_cgi_params/werkzeug decoding against the model for all ten kinds, a round-trip oracle '
          'for ALL options and random option subsets, and over HTTP: the query strings of a real manifest\'s media URLs re-parsed '
          'by the server\'s own parser; error positions given as wall-clock times must address the right segment of each track.',
-    note=TB + 'the PlayReady version (float text) is decided by the differential round trip only; error positions that are date-times '
+    note=TB + 'PlayReady versions with more than one fractional digit (not among the listed choices) are decided by the differential round trip only; error positions that are date-times '
          'are outside the model (oracle); werkzeug decoding is modelled (+ and %XX); free strings of the Str / List kinds are '
          'restricted to URL-plain characters (the URL layer does no escaping for them).',
     technique='Coq proof (decimal print/parse, comma / equals / hyphen split and join, percent-encoding through query decoding, '
